@@ -191,3 +191,15 @@ Theorem C04_compare_chain_stops : forall N P n s mu C x y o ops e args mu1,
   cmp_chain N P (S n) s mu C (VNum x) (o :: ops) (e :: args) = ROk (VBool false, mu1).
 Proof. exact compare_chain_stops. Qed.
 Print Assumptions C04_compare_chain_stops.
+
+(* ------------------------------------------------------------------ refuted on the unchanged tree *)
+(* Documented (derived-semantics.rst): `Len / Size / Dim: exact integer counts, no rounding`.
+   Full-strength statement that does NOT hold for the code as it is:
+     forall xs C, size of xs evaluated under C = len xs.
+   The faithful model (ESize rounds, as ops.size does) gives the witness; see
+   known finding `size-dim-rounded` and fixes/C04-size-dim-exact.diff. *)
+Theorem C04_size_exact_refuted :
+  exists sz ln, run prov_numops size_prog 50 "main" [CList five] None = ROk (CTuple [CNum sz; CNum ln]) /\
+    num_same ln (num_of_Z 5) = true /\ num_same sz (num_of_Z 5) = false /\ num_same sz (num_of_Z 4) = true.
+Proof. exact size_exact_refuted. Qed.
+Print Assumptions C04_size_exact_refuted.
